@@ -103,6 +103,19 @@ def run_case(case, obs) -> None:  # noqa: C901, PLR0912, PLR0915
     def fresh():
         return m.state(q, p)
 
+    # order of first use of the system object: its flows / momentum draw may run before any value or derivative method
+    # (they use other lazily computed representations of the metric than the derivative methods do)
+    first_use = "values-first"
+    if spec["sys"] in zoo.TRACTABLE and rng.integers(0, 2):
+        first_use = "flows-first"
+        scratch = m.state(q, p)
+        s.h2_flow(scratch, float(rng.uniform(0.05, 0.5)))
+        if hasattr(s, "dh2_flow_dmom"):
+            s.dh2_flow_dmom(m.state(q, p), 0.1)
+        if rng.integers(0, 2):
+            s.sample_momentum(m.state(q, p), np.random.default_rng(1))
+    obs.count(f"first_use.{first_use}")
+
     note = [""]
 
     def judge(name, got, ref, tol):
@@ -114,7 +127,7 @@ def run_case(case, obs) -> None:  # noqa: C901, PLR0912, PLR0915
             obs.violation(f"{name}:non-finite:{tagbase}", f"{cname}.{name} returned non-finite value; spec={spec}")
         elif e > tol:
             obs.violation(f"{name}:mismatch:{tagbase}",
-                          f"{cname}.{name} differs from the independent reference by {e:.3e} (rel){note[0]}; metric={mk} spec={spec}")
+                          f"{cname}.{name} differs from the independent reference by {e:.3e} (rel){note[0]}; system first used for: {first_use}; metric={mk} spec={spec}")
 
     # values
     judge("h1", s.h1(fresh()), m.ref_h1(q), TOL_V)
